@@ -12,6 +12,10 @@ CHECKS = {
          'faults are sampled, not enumerated; the middlebox acknowledges every notification (provider-visible failures are C08); equality only demanded after faults stopped', '6 (C06)'),
  'C11': ('exploration', 'seeded operation sequences on a MultiKeyLookup (table machine, 1-3 tasks) and on the provider MDIB tables with indexed-attribute changes and rejected operations; every index recomputed from the stored objects after each operation (consumer and subscription tables are audited in the C01/C06/C08 runs)',
          'sampled sequences; add_index on a non-empty table is not part of the claimed surface (the MDIB creates indices on empty tables)', '6 (C11)'),
+ 'C04': ('exploration', 'seeded search over transaction histories x writer interleavings (1-4 writer tasks, lock and line granularity) with scripted recording subscribers; every received message validated against the bundled XSDs and compared with the commit-time version history',
+         'sampled; subscribers are scripted peers; wire elements parsed with the library container classes before canonicalisation', '6 (C04)'),
+ 'C07': ('exploration', 'seeded search over getter x writer interleavings in the simulated provider; every Get answer is refined against the provider history entry of the MdibVersion it states',
+         'sampled schedules at lock and (sampled) line granularity; answers parsed with the library reader', '6 (C07)'),
 }
 TECH = 'deterministic simulation with fault injection (seeded scheduler + virtual clock + simulated network, fork per run, ddmin replay)'
 
